@@ -455,6 +455,13 @@ impl Drv {
                     Err(e) => format!("err({})", err_class(&e)),
                 }
             }
+            "CHOOSE_END" => {
+                // ["CHOOSE_END", k]: choose index (number of offered choices + k): always out of range
+                let k = arr.get(1).and_then(|x| x.as_u64()).unwrap_or(0) as usize;
+                let st = self.story.as_mut().unwrap();
+                let n = st.get_current_choices().len();
+                res_unit(st.choose_choice_index(n + k))
+            }
             "CHOOSE" => {
                 let i = arr.get(1).and_then(|x| x.as_i64()).unwrap_or(0);
                 let st = self.story.as_mut().unwrap();
